@@ -5,7 +5,7 @@ Import ListNotations.
 
 Lemma inv_init : Inv tinit init.
 Proof.
-  constructor; try reflexivity; try (intro; reflexivity); try (intros ? ? ? ? []); try (intros ? ? []).
+  constructor; try reflexivity; try (intro; reflexivity); try (intros ? ? ? ? []); try (intros ? ? []); try apply wfc_conn_init.
   repeat split; simpl; intros; discriminate.
 Qed.
 
